@@ -23,7 +23,7 @@ class C16(BaseCheck):
                       'surplus-close', 'reopen-after-last-close', 'same-key', 'different-key',
                       'underlying-closed-while-held')
   QUICK_CASES = 1500
-  THOROUGH_CASES = 18000
+  THOROUGH_CASES = 120000
   QUICK_WALL = 40
   THOROUGH_WALL = 300
   MIN_DISTINCT = 10
